@@ -680,6 +680,7 @@ func runC01(c *Ctx) {
 	runC01Shares4(c)
 	runC01RecoveryNoWait(c, a)
 	runC01RecoveryReadError(c, a)
+	runC01DispatchError(c, a)
 	// ----- R6
 	c.Rule("R6", "WHO+GATE+PAIR", "the storage client is closed only by the unref helper under refCount==0; the completion callback always releases its reference (deferred unref)", 3)
 	{
